@@ -15,7 +15,7 @@ PROP = {
                    "full getter is skipped only when the stored byte is a genuine hash-probe byte whose bits cover the new index; the byte "
                    "array of a LimP4 / Open2N2 bucket keeps, over every add/remove history, the byte of the element that is at each position now. "
                    "The executable model is compared with the real bucket classes on every run (all L, all in-range displacements, all L', "
-                   "hashCount 4/6/8) and with real HashSets of slow-hash keys (hash evaluations counted during every relocation, twin set that "
+                   "hashCount 4/6/8 - 6 and 8 through builds with the global macro MOMO_MEM_MANAGER_PTR_USEFUL_BIT_COUNT = 48 / 32, not through per-manager constants, which momo ignores: observation O3) and with real HashSets of slow-hash keys (hash evaluations counted during every relocation, twin set that "
                    "recomputes every hash must have the identical layout); layout constants are re-extracted from the headers. pvCalcShortHash, pvGetProbeShift, pvSetHashProbe, pvGetCount, IsFull, GetHashCodePart and the byte compaction of Remove of BucketLimP4, pvCalcShortHash, pvGetProbeShift, pvGetCount, IsFull, the metadata part of AddCrt / Remove and GetHashCodePart of BucketOpen2N2, pvGetHashState (4 widths) and GetHashCodePart of BucketOne are additionally TRANSLATED from the header text on every run (tools/translate.py, tools/trspecs/HashMeta.py; index functions: tools/trspecs/HashProbe.py) and proved equal to the model functions (Proof/TrEqHashMeta.lean); reconstruction, bits-suffice, chain and still-found theorems are proved for the generated definitions themselves (C12_*_translated)."),
     "level_note": ("Trusted: Lean kernel, the three standard axioms, extractor, correspondence harness (g++, -fno-access-control). Modelled not "
                    "verified: the C++ byte layout of mShortHashes/mHashData/mHashState and the pointer-state bits; that HashSet::pvRelocateItems "
@@ -48,9 +48,15 @@ PROP = {
         {"name": "c12_hashmeta", "src": "c12_hashmeta.cpp"},
         {"name": "c12_table_limp4_one", "src": "c12_table.cpp", "flags": ["-DC12_PART=1"]},
         {"name": "c12_table_open", "src": "c12_table.cpp", "flags": ["-DC12_PART=2"]},
+        # 6 / 8 metadata bytes (48- / 32-bit pointer states): reachable only through the global macro today (observation O3: a manager's own
+        # ptrUsefulBitCount is ignored, harness/common/verif_ptrbits.h; c12_table part 1 records it as counter note.O3_*)
+        {"name": "c12_hashmeta_p48", "src": "c12_hashmeta.cpp", "flags": ["-DMOMO_MEM_MANAGER_PTR_USEFUL_BIT_COUNT=48"]},
+        {"name": "c12_hashmeta_p32", "src": "c12_hashmeta.cpp", "flags": ["-DMOMO_MEM_MANAGER_PTR_USEFUL_BIT_COUNT=32"]},
+        {"name": "c12_table_limp4_p48", "src": "c12_table.cpp", "flags": ["-DC12_PART=3", "-DMOMO_MEM_MANAGER_PTR_USEFUL_BIT_COUNT=48"]},
+        {"name": "c12_table_limp4_p32", "src": "c12_table.cpp", "flags": ["-DC12_PART=4", "-DMOMO_MEM_MANAGER_PTR_USEFUL_BIT_COUNT=32"]},
     ],
     "rule": ("fn: for every L in 0..57 and every in-range displacement p < min(2^probeShift, 2^L) (plus two out-of-range ones) real buckets "
-             "LimP4<1..4> with hashCount 4, 6 and 8 (8-, 6- and 4-byte pointer states; 8- and 16-byte items) and Open2N2<1..3> receive one "
+             "LimP4<1..4> with hashCount 4 (default build), 6 and 8 (builds c12_hashmeta_p48 / _p32 with the global macro; 8-, 6- and 4-byte pointer states; 8- and 16-byte items) and Open2N2<1..3> receive one "
              "element per case (position rotating over the bucket's slots) with boundary hash codes (0, all ones, alternating, single bits "
              "around L and around the group boundary 8q+1, 2^k-1) and random ones; the stored byte and short hash, the full-getter mask over "
              "every L' in [L,57] and the reconstructed code are compared with the model; every reconstructed code is checked against the true "
@@ -62,12 +68,15 @@ PROP = {
              "relocation's hash-evaluation count vs the model over the real bytes, all keys findable, twin set that always rehashes has "
              "the identical per-bucket element order; fault runs keep old generations alive so that later relocations span several "
              "generations. distinct_nontrivial counts distinct (configuration, L, p, slot) cases / history steps with a reconstructed "
-             "code / counted relocations."),
+             "code / counted relocations. hashCount 6 and 8 are really exercised only by the builds c12_hashmeta_p48 / _p32 (all LimP4 drivers "
+             "with 6 resp. 8 metadata bytes) and c12_table_limp4_p48 / _p32 (LimP4<1..4> tables over a manager with 48 / 32 useful pointer bits, 32: "
+             "arena below 4 GB; twin tables without hash parts use the 6- / 4-byte pointer state with state mask 0): without the macro every "
+             "manager gets 64 bits (observation O3)."),
     "runtime_only": ["'every key stays findable' and 'same layout as the always-rehash twin' at table level are observed on the runs, "
                      "the corresponding theorems (C12_chain, C12_still_found) are about the model"],
     "not_modelled": ["memory pools / item storage of LimP4 (only the metadata bytes, count, pool index)",
                      "max-probe bytes of Open2N2 (C13)",
-                     "32-bit size_t builds; MOMO_MEM_MANAGER_PTR_USEFUL_BIT_COUNT is covered through per-manager ptrUsefulBitCount = 64/48/32",
+                     "32-bit size_t builds (pointer widths 48 / 32 are covered through builds with -DMOMO_MEM_MANAGER_PTR_USEFUL_BIT_COUNT=48 / 32; a per-manager ptrUsefulBitCount has no effect in momo today, observation O3)",
                      "the whole-table state machine with several generations (C01/C11); here one element is followed through the chain "
                      "with the occupancy of each new table as a universally quantified parameter"],
 }
